@@ -377,7 +377,7 @@ static void case_state(int proto, size_t n, size_t t, Rng &r, long kcase) {
 		case 0: vss[i] = new PedersenVSS(n, t, i, grp.p, grp.q, grp.g, grp.h, FS, GS, false, "c11"); rets[i] = (i == dealer) ? vss[i]->Share(sigma, P.aiou, P.rbc, P.err) : vss[i]->Share(dealer, P.aiou, P.rbc, P.err); break;
 		case 1: gd[i] = new GennaroJareckiKrawczykRabinDKG(n, t, i, grp.p, grp.q, grp.g, grp.h, FS, GS, true, false, "c11"); rets[i] = gd[i]->Generate(P.aiou, P.rbc, P.err); break;
 		case 2: rv[i] = new CanettiGennaroJareckiKrawczykRabinRVSS(n, t, i, t, grp.p, grp.q, grp.g, grp.h, FS, GS, true, false, "c11"); rets[i] = rv[i]->Share(P.aiou, P.rbc, P.err); break;
-		case 3: zv[i] = new CanettiGennaroJareckiKrawczykRabinZVSS(n, t, i, second ? 2 * t : t, grp.p, grp.q, grp.g, grp.h, FS, GS, true, false, "c11"); rets[i] = zv[i]->Share(P.aiou, P.rbc, P.err); break;
+		case 3: zv[i] = new CanettiGennaroJareckiKrawczykRabinZVSS(n, t, i, (n % 2) ? 2 * t : t, grp.p, grp.q, grp.g, grp.h, FS, GS, true, false, "c11"); rets[i] = zv[i]->Share(P.aiou, P.rbc, P.err); break;
 		case 4: cd[i] = new CanettiGennaroJareckiKrawczykRabinDKG(n, t, i, grp.p, grp.q, grp.g, grp.h, FS, GS, true, false, "c11"); rets[i] = cd[i]->Generate(P.aiou, P.rbc, P.err);
 			if (second) { bar.arrive_and_serve(i, P.rbc); rets2[i] = cd[i]->Refresh(n, i, P.aiou, P.rbc, P.err); } break;
 		case 5: ds[i] = new CanettiGennaroJareckiKrawczykRabinDSS(n, t, i, grp.p, grp.q, grp.g, grp.h, FS, GS, true, false); rets[i] = ds[i]->Generate(P.aiou, P.rbc, P.err);
